@@ -1,6 +1,6 @@
 """C09 - bring-up never endangers the device and never serves from an unsafe
 state.  Dominance rules over initialize_device / _handle_bootloader /
-TCPServer.run, ordering-domain evaluation of the version relation, constants
+TCPServer.run, ordering-domain evaluation of the version relation by decision walk on the 27 order types, equality form of echo(), constants
 against the firmware headers."""
 import ast
 import itertools
